@@ -89,5 +89,19 @@ func (p *placeholder) Provides() []ast.Expr {
 // name without ".go" suffix to guarantee uniqueness of generated cff
 // functions.
 func TrimFilename(path string) string {
-	return strings.ReplaceAll(strings.TrimSuffix(filepath.Base(path), ".go"), "_", "")
+	name := strings.TrimSuffix(filepath.Base(path), ".go")
+	var sb strings.Builder
+	for _, r := range name {
+		switch {
+		case r >= 'a' && r <= 'z', r >= 'A' && r <= 'Z', r >= '0' && r <= '9':
+			sb.WriteRune(r)
+		default:
+			// File names may hold characters that identifiers may not
+			// ("my-file.go", "a.b.go"), and dropping a character makes
+			// different names alike ("ab_c.go", "a_bc.go"): spell the
+			// character out instead.
+			fmt.Fprintf(&sb, "_%x_", r)
+		}
+	}
+	return sb.String()
 }
